@@ -52,9 +52,9 @@ open AslModel.ThreadEnd
 
 /-- the invariant of the current code (`endedFirst`, `holdsState`), as a decidable predicate -/
 def inv (c : Cfg) : Bool :=
-  c.endedFirst && c.holdsState && !c.bad && decide (c.wpc ≤ 3) && decide (c.owner ≤ 2) &&
-  decide (c.stateRefs = (if c.objAlive then 1 else 0) + (if c.wpc < 3 then 1 else 0)) &&
-  (!c.finished || decide (c.wpc = 3)) &&
+  c.endedFirst && c.holdsState && !c.bad && decide (c.wpc ≤ 4) && decide (c.owner ≤ 2) &&
+  decide (c.stateRefs = (if c.objAlive then 1 else 0) + (if c.wpc < 4 then 1 else 0)) &&
+  (!c.finished || decide (3 ≤ c.wpc)) &&
   (if c.selfOwned then decide (c.owner = 0) && (c.objAlive == decide (c.wpc ≤ 1))
    else (c.objAlive == decide (c.owner ≠ 2)) && (decide (c.owner = 0) || c.finished))
 
@@ -64,7 +64,7 @@ theorem init_inv (so : Bool) : inv (init true true so) = true := by
 /-- a configuration with the invariant has small control fields: enumerate them -/
 theorem step_inv (c : Cfg) (a : Act) (h : inv c = true) (he : enabled c a = true) : inv (step c a) = true := by
   obtain ⟨ef, hs, so, wpc, oa, sr, fin, ow, bad⟩ := c
-  have hw : wpc ≤ 3 := by
+  have hw : wpc ≤ 4 := by
     simp only [inv, Bool.and_eq_true, decide_eq_true_eq] at h; omega
   have ho : ow ≤ 2 := by
     simp only [inv, Bool.and_eq_true, decide_eq_true_eq] at h; omega
@@ -72,10 +72,10 @@ theorem step_inv (c : Cfg) (a : Act) (h : inv c = true) (he : enabled c a = true
     simp only [inv, Bool.and_eq_true, decide_eq_true_eq] at h
     have := h.1.1.2
     split at this <;> split at this <;> omega
-  have e1 : wpc = 0 ∨ wpc = 1 ∨ wpc = 2 ∨ wpc = 3 := by omega
+  have e1 : wpc = 0 ∨ wpc = 1 ∨ wpc = 2 ∨ wpc = 3 ∨ wpc = 4 := by omega
   have e2 : ow = 0 ∨ ow = 1 ∨ ow = 2 := by omega
   have e3 : sr = 0 ∨ sr = 1 ∨ sr = 2 := by omega
-  rcases e1 with rfl | rfl | rfl | rfl <;> rcases e2 with rfl | rfl | rfl <;> rcases e3 with rfl | rfl | rfl <;>
+  rcases e1 with rfl | rfl | rfl | rfl | rfl <;> rcases e2 with rfl | rfl | rfl <;> rcases e3 with rfl | rfl | rfl <;>
     cases ef <;> cases hs <;> cases so <;> cases oa <;> cases fin <;> cases bad <;>
     first
     | (exfalso; revert h; decide)
@@ -95,7 +95,7 @@ theorem inv_not_bad (c : Cfg) (h : inv c = true) : c.bad = false := by
   exact h.1.1.1.1.1.2
 
 theorem inv_refs (c : Cfg) (h : inv c = true) :
-    c.stateRefs = (if c.objAlive then 1 else 0) + (if c.wpc < 3 then 1 else 0) := by
+    c.stateRefs = (if c.objAlive then 1 else 0) + (if c.wpc < 4 then 1 else 0) := by
   simp only [inv, Bool.and_eq_true, decide_eq_true_eq] at h
   exact h.1.1.2
 
